@@ -7,7 +7,8 @@ def number_to_datetime(value):
     # Excel treats 1900 as a leap year: serial 60 is its 29 February.
     offset = 2 if int(value) > 59 else 1
     delta = datetime.timedelta(
-        days=int(value) - offset, seconds=(value % 1) * 24 * 60 * 60)
+        days=int(value) - offset,
+        seconds=float(value % 1) * 24 * 60 * 60)
     return EXCEL_EPOCH + delta
 
 
